@@ -243,6 +243,7 @@ def run_variant(case, d, v):
     if case["paired"]:
         cfg.interleaved_in = bool(v.get("inter_in"))
         cfg.interleaved_out = bool(v.get("inter_out"))
+        cfg.redirect_two = bool(v.get("redirect_two"))
         if cfg.interleaved_in:
             inputs = {"in.inter." + ext: ser([r for pr in recs for r in pr])}
         else:
@@ -322,6 +323,7 @@ def rand_variant(rng, case, k):
     if case["paired"]:
         v["inter_in"] = rng.random() < 0.4
         v["inter_out"] = rng.random() < 0.3 and not (b.demux or case["cfg"].combinatorial)
+        v["redirect_two"] = v["inter_out"] and rng.random() < 0.6   # interleaved main output, redirect files still as two files
     if not b.fasta:
         r = rng.random()
         if r < 0.2 and quality_free(case):
@@ -375,7 +377,7 @@ def part_matrix(ctx, d, dist):
             ctx.count(key, any(len(x["records"]) for x in ref["files"].values()))
             for kk in ("in_comp", "out_comp"):
                 dist["%s=%s" % (kk, v.get(kk) or "plain")] = dist.get("%s=%s" % (kk, v.get(kk) or "plain"), 0) + 1
-            for kk in ("fasta_in", "fasta_out", "inter_in", "inter_out", "mixed_out", "gt_names", "buffer_size"):
+            for kk in ("fasta_in", "fasta_out", "inter_in", "inter_out", "redirect_two", "mixed_out", "gt_names", "buffer_size"):
                 if v.get(kk):
                     dist[kk] = dist.get(kk, 0) + 1
             dist["cores=%d" % v["cores"]] = dist.get("cores=%d" % v["cores"], 0) + 1
